@@ -17,15 +17,21 @@ ASSUMPTIONS = ["ruint's decimal Display, from_str_radix(10) and checked_{add,sub
 
 
 def amounts(rng, n):
+    """boundary amounts are always all included; n random ones (every bit length 1..256) follow"""
     xs = [0, 1, 9, 10, RAW - 1, RAW, RAW + 1, 2 ** 64 - 1, 2 ** 64, 2 ** 64 + 1, 2 ** 128 - 1, 2 ** 128,
           2 ** 128 + 1, U256 - 1, U256 - RAW, U256 // RAW * RAW, U256 // RAW * RAW - 1]
     for k in range(0, 78):
         xs += [10 ** k - 1, 10 ** k, 10 ** k + 1]
+    # every bit length (a fast path on a narrower integer shows only in one band of bit lengths) ...
+    for b in range(1, 257):
+        xs += [2 ** b - 1, 2 ** b, 2 ** b + 1]
+    # ... and every bit length of the WHOLE-TOKEN part (2^k tokens and its neighbours)
+    for k in range(0, 197):
+        xs += [2 ** k * RAW - 1, 2 ** k * RAW, 2 ** k * RAW + rng.randrange(0, RAW)]
     xs = [x for x in xs if 0 <= x < U256]
-    while len(xs) < n:
-        bits = rng.choice([8, 30, 60, 64, 70, 128, 200, 256])
-        xs.append(rng.getrandbits(bits))
-    return xs[:max(n, 260)]
+    for _ in range(n):
+        xs.append(rng.getrandbits(rng.randrange(1, 257)))
+    return xs
 
 
 def strings(rng, n):
